@@ -2,7 +2,7 @@
    One case = one chunk history run on the real tsdb/chunkenc code: segments of appends with
    the appender re-obtained in between (from the same object or from the chunk's bytes), the
    final chunk bytes, what iterating those bytes returned, and a Next/Seek script. *)
-From Coq Require Import List ZArith Bool.
+From Coq Require Import List ZArith Bool Uint63.
 From Verif Require Import lib.Int64 lib.Bits model.Xor.
 Import ListNotations.
 Open Scope Z_scope.
@@ -11,13 +11,24 @@ Record case := mkCase {
   c_id : Z;
   c_enc : Z;                               (* 1 = XOR (EncXOR), 2 = XOR2 (EncXOR2) *)
   c_segs : list (reopen * list sample);    (* the history *)
-  c_panic : bool;                          (* an Append panicked ("chunk capacity exceeded") *)
+  c_fail : Z;                              (* 0 = history completed; 1 = an Append panicked
+                                              ("chunk capacity exceeded"); 2 = Appender() returned an error *)
   c_bytes : list Z;                        (* Chunk.Bytes() at the end *)
   c_dec : list sample;                     (* (AtST, At) of every Next() over those bytes *)
   c_derr : bool;                           (* Iterator.Err() != nil afterwards *)
   c_acts : list act;                       (* Next/Seek script run on a second iterator *)
   c_obs : list obs1                        (* per action: None = ValNone, Some (AtST, At) *)
 }.
+
+(* wire format: the harness writes every number as primitive 63-bit integer literals (Coq parses
+   those natively; Z literals cost milliseconds each).  A 64-bit quantity is a (high, low)
+   pair of 32-bit halves; timestamps are re-interpreted as int64. *)
+Definition zz (h l : int) : Z := Uint63.to_Z h * 4294967296 + Uint63.to_Z l.
+Definition wS (sh sl th tl vh vl : int) : sample := mkS (W64 (zz sh sl)) (W64 (zz th tl)) (zz vh vl).
+Definition wSeek (h l : int) : act := ASeek (W64 (zz h l)).
+Definition wCase (id enc : int) (segs : list (reopen * list sample)) (fail : int) (bytes : list int)
+    (dec : list sample) (derr : bool) (acts : list act) (obs : list obs1) : case :=
+  mkCase (Uint63.to_Z id) (Uint63.to_Z enc) segs (Uint63.to_Z fail) (map Uint63.to_Z bytes) dec derr acts obs.
 
 Definition sample_eqb (a b : sample) : bool :=
   (s_st a =? s_st b) && (s_t a =? s_t b) && (s_v a =? s_v b).
@@ -41,9 +52,9 @@ Definition obs_eqb (a b : obs1) : bool :=
 Definition agree_enc (c : case) : bool :=
   match (if c_enc c =? 1 then xor_encode (c_segs c) else xor2_encode (c_segs c)) with
   | EOk num hdr bs =>
-      negb (c_panic c) && list_eqb Z.eqb (chunk_bytes num hdr bs) (c_bytes c)
-  | EPanic => c_panic c
-  | EAppErr => false
+      (c_fail c =? 0) && list_eqb Z.eqb (chunk_bytes num hdr bs) (c_bytes c)
+  | EPanic => c_fail c =? 1
+  | EAppErr => c_fail c =? 2
   end.
 
 Definition agree_dec (c : case) : bool :=
@@ -60,7 +71,7 @@ Definition agree_script (c : case) : bool :=
   end.
 
 Definition agree (c : case) : bool :=
-  if c_panic c then agree_enc c else agree_enc c && agree_dec c && agree_script c.
+  if negb (c_fail c =? 0) then agree_enc c else agree_enc c && agree_dec c && agree_script c.
 
 (* ---- holds: the property itself, on the implementation's observations -------------------- *)
 
@@ -101,7 +112,7 @@ Definition holds (c : case) : bool :=
   let exp := appended c in
   if (65535 <? Z.of_nat (length exp)) then true      (* beyond the chunk's sample capacity *)
   else
-    negb (c_panic c) && negb (c_derr c) &&
+    (c_fail c =? 0) && negb (c_derr c) &&
     list_eqb sample_eqb (c_dec c) exp &&
     list_eqb obs_eqb (c_obs c) (spec_script None exp (c_acts c)).
 
